@@ -294,6 +294,7 @@ class Interp(object):
         self.sys_path = ['<sys.path[0]>']
         self.sys_modules = None       # a concrete dict replaces the symbolic sys.modules when set
         self._class_attr_values = {}
+        self.mtimes = None            # path -> modification time, for os.path.getmtime
         self.fs_dirs = None           # directory -> listing, for os.listdir
         self.memoise_cached = False
         self.nodevisitor_model = False
@@ -470,6 +471,9 @@ class Interp(object):
 
     def call_func(self, fv, args, kwargs):
         node = fv.node
+        if not isinstance(node, ast.Lambda) and any(unparse(d).split('.')[-1] == 'contextmanager' for d in node.decorator_list) \
+                and not getattr(self, '_raw_generator', False):
+            return self.context_manager(fv, args, kwargs)
         if self.call_depth > 40:
             raise Uninterpretable('call depth exceeded in %s' % fv.name)
         a = node.args
@@ -520,6 +524,60 @@ class Interp(object):
         finally:
             self.call_depth -= 1
         return frame.yielded if gen else None
+
+    def context_manager(self, fv, args, kwargs):
+        """@contextmanager generator with one top-level `yield` (plain, or inside try/finally): the statements before the yield run
+        at __enter__, those after it at __exit__ (only the finally part when the body of the with raised)."""
+        body = list(fv.node.body)
+        idx = None
+        for i, st in enumerate(body):
+            if isinstance(st, ast.Expr) and isinstance(st.value, ast.Yield):
+                idx = (i, None)
+            elif isinstance(st, ast.Try) and not st.handlers and any(isinstance(x, ast.Expr) and isinstance(x.value, ast.Yield) for x in st.body):
+                j = [k for k, x in enumerate(st.body) if isinstance(x, ast.Expr) and isinstance(x.value, ast.Yield)][0]
+                idx = (i, j)
+        nyield = sum(1 for n in ast.walk(fv.node) if isinstance(n, (ast.Yield, ast.YieldFrom)))
+        if idx is None or nyield != 1:
+            raise Uninterpretable('context manager %s: unsupported generator shape' % fv.name)
+        i, j = idx
+        state = {}
+
+        def enter(it, a, k):
+            frame = self._bind_frame(fv, args, kwargs)
+            state['frame'] = frame
+            self.exec_block(body[:i], frame)
+            if j is not None:
+                self.exec_block(body[i].body[:j], frame)
+                y = body[i].body[j].value.value
+            else:
+                y = body[i].value.value
+            return self.eval(y, frame) if y is not None else None
+
+        def exit_(it, a, k):
+            frame = state['frame']
+            failed = bool(a) and a[0] is not None
+            if j is not None:
+                if not failed:
+                    self.exec_block(body[i].body[j + 1:], frame)
+                self.exec_block(body[i].finalbody, frame)
+            if not failed:
+                self.exec_block(body[i + 1:], frame)
+            return False
+        ci = self.facts.classes.get('Unresolved') or next(iter(self.facts.classes.values()))
+        return Obj(ci, {'__enter__': Native('__enter__', enter), '__exit__': Native('__exit__', exit_)}, 'context manager ' + fv.name)
+
+    def _bind_frame(self, fv, args, kwargs):
+        a = fv.node.args
+        params = [x.arg for x in a.posonlyargs + a.args]
+        local = {}
+        args = list(args)
+        if fv.bound is not None:
+            args = [fv.bound] + args
+        for p_, v in zip(params, args):
+            local[p_] = v
+        for k_, v in kwargs.items():
+            local[k_] = v
+        return Frame(fv.rel, self.module_env(fv.rel), local, fv.closure, fv)
 
     def e_Yield(self, e, f):
         if getattr(f, 'yielded', None) is None:
@@ -896,6 +954,10 @@ class Interp(object):
 
     def nat_getmtime(self, args, kwargs):
         self.effect('getmtime', args[0])
+        if self.mtimes is not None:
+            if str(args[0]) not in self.mtimes:
+                raise InterpRaise('FileNotFoundError', str(args[0]))
+            return self.mtimes[str(args[0])]
         return 0
 
     def nat___import__(self, args, kwargs):
